@@ -134,6 +134,26 @@ pub fn case_enum(f: &F, v: &V) -> Result<(), String> {
         &|t| matches!(t.1, narsese::enum_narsese::Budget::Empty),
         &|a| show_cv(&cv_of(a)),
     )?;
+    // the std conversions out of the parser's result type (TryFrom<Narsese> for Term / Sentence /
+    // Task, i.e. `.try_into()`): Ok exactly on the matching kind, and then the wrapped value
+    {
+        use narsese::enum_narsese::{Sentence as ES, Term as ET};
+        let k = v.kind();
+        let t = ET::try_from(n.clone());
+        let s = ES::try_from(n.clone());
+        let ta = Task::try_from(n.clone());
+        if (t.is_ok(), s.is_ok(), ta.is_ok()) != (k == Kind::Term, k == Kind::Sentence, k == Kind::Task) {
+            return Err(format!("Term/Sentence/Task::try_from(Narsese) Ok-ness = {:?} for a {:?}", (t.is_ok(), s.is_ok(), ta.is_ok()), k));
+        }
+        let back = match k {
+            Kind::Term => Narsese::Term(t.ok().unwrap()),
+            Kind::Sentence => Narsese::Sentence(s.ok().unwrap()),
+            Kind::Task => Narsese::Task(ta.ok().unwrap()),
+        };
+        if cv_of(&back) != cv_of(&n) {
+            return Err(format!("X::try_from(Narsese) returns {} for {}", show_cv(&cv_of(&back)), show_cv(&cv_of(&n))));
+        }
+    }
     // classification by both parsers
     let s = f.e.format_narsese(&n);
     let k = v.kind();
